@@ -72,23 +72,28 @@ func (t *Total) Validate() error {
 	)
 }
 
-// Validate checks the rates of the category total.
+// Validate checks that the category total has a valid code and at least one
+// rate, and then the rates themselves.
 func (ct *CategoryTotal) Validate() error {
 	if ct == nil {
 		return nil
 	}
 	return validation.ValidateStruct(ct,
-		validation.Field(&ct.Rates),
+		validation.Field(&ct.Code, validation.Required),
+		validation.Field(&ct.Rates, validation.Required),
 	)
 }
 
-// Validate ensures that the extensions used to group the rate are defined and
-// have acceptable values, just like those of the tax combos they come from.
+// Validate ensures that the key and country of the rate are well formed, and
+// that the extensions used to group the rate are defined and have acceptable
+// values, just like those of the tax combos they come from.
 func (rt *RateTotal) Validate() error {
 	if rt == nil {
 		return nil
 	}
 	return validation.ValidateStruct(rt,
+		validation.Field(&rt.Key),
+		validation.Field(&rt.Country),
 		validation.Field(&rt.Ext),
 	)
 }
